@@ -2,11 +2,13 @@ package props
 
 import (
 	"context"
+	stdjson "encoding/json"
 	"fmt"
 	"math/rand"
 	"reflect"
 	"sort"
 	"strings"
+	"sync/atomic"
 
 	gojson "github.com/goccy/go-json"
 
@@ -480,6 +482,88 @@ func c19Check(c *rt.Ctx, sub int, v any, t reflect.Type, q *qnode, phase string)
 	c.Obs("projections_equal", 1)
 }
 
+var c19ColdSeq int64
+
+// c19Cold: a struct type nobody has encoded before (a fresh run-time type per case) is used with a
+// query first, then without one, then with another query, then with the first again. The reference
+// for every step comes from encoding/json's unfiltered output, so nothing warms the type's caches
+// before the first query does.
+func c19Cold(c *rt.Ctx, sub int, r *rand.Rand) {
+	id := atomic.AddInt64(&c19ColdSeq, 1)
+	var x any
+	var t reflect.Type
+	if int(id) <= len(c19ColdCompiled) && r.Intn(4) != 0 {
+		// a compiled-in type reserved for this purpose (descriptor inside the address-indexed cache
+		// window), used at most once per process
+		x = c19ColdCompiled[id-1](r.Intn(100))
+		t = reflect.TypeOf(x).Elem()
+		if r.Intn(2) == 0 {
+			x = reflect.ValueOf(x).Elem().Interface()
+		}
+		c.Obs("cold_compiled_types_used", 1)
+	} else {
+		// a fresh run-time type (descriptor on the heap: the map-backed cache)
+		tag := func(n string) reflect.StructTag {
+			return reflect.StructTag(fmt.Sprintf(`json:"%s%d_%d"`, n, c.Idx, id))
+		}
+		leaf := reflect.StructOf([]reflect.StructField{{Name: "X", Type: reflect.TypeOf(0), Tag: tag("x")}, {Name: "Y", Type: reflect.TypeOf(""), Tag: tag("y")}, {Name: "Z", Type: reflect.TypeOf([]int(nil)), Tag: tag("z")}})
+		t = reflect.StructOf([]reflect.StructField{{Name: "A", Type: reflect.TypeOf(0), Tag: tag("a")}, {Name: "B", Type: reflect.TypeOf(""), Tag: tag("b")},
+			{Name: "C", Type: leaf, Tag: tag("c")}, {Name: "D", Type: reflect.PtrTo(leaf), Tag: tag("d")}, {Name: "E", Type: reflect.TypeOf(map[string]int(nil)), Tag: tag("e")}})
+		v := reflect.New(t).Elem()
+		v.Field(0).SetInt(int64(r.Intn(100)))
+		v.Field(1).SetString("b")
+		v.Field(2).Field(0).SetInt(7)
+		v.Field(2).Field(1).SetString("y")
+		v.Field(2).Field(2).Set(reflect.ValueOf([]int{1, 2}))
+		d := reflect.New(leaf)
+		d.Elem().Field(0).SetInt(9)
+		v.Field(3).Set(d)
+		v.Field(4).Set(reflect.ValueOf(map[string]int{"k": 1}))
+		x = v.Interface()
+		if r.Intn(2) == 0 {
+			x = v.Addr().Interface()
+		}
+		c.Obs("cold_runtime_types_used", 1)
+	}
+	base, err := stdjson.Marshal(x)
+	if err != nil {
+		return
+	}
+	bn, _ := oracle.Parse(base)
+	q1, q2 := genQuery(r, t, 3), genQuery(r, t, 3)
+	input := map[string]any{"type": t.String(), "queries": []string{q1.String(), q2.String()}}
+	step := func(name string, q *qnode) bool {
+		var got []byte
+		var gerr error
+		var pan bool
+		if q == nil {
+			pan, _, _ = rt.Guard(func() { got, gerr = gojson.Marshal(x) })
+		} else {
+			got, gerr, pan = runQuery(q, x)
+		}
+		c.Eval(1)
+		if pan || gerr != nil {
+			c.Violate(rt.Violation{Monitor: "query-isolation", Entry: "cold-type", Kind: "encode-failed", Ctx: name, Detail: fmt.Sprint(gerr, " panic=", pan), Input: input, Sub: sub})
+			return false
+		}
+		want := bn
+		if q != nil {
+			want = project(copyNode(bn), reflect.TypeOf(x), reflect.ValueOf(x), q)
+		}
+		gn, e := oracle.Parse(got)
+		if e != nil || projDiff(want, gn, t, "T") != "" {
+			c.Violate(rt.Violation{Monitor: "query-isolation", Entry: "cold-type", Kind: "encoding-depends-on-first-use", Ctx: name,
+				Detail: fmt.Sprintf("step %s (q1 %s, q2 %s): got %s want %s", name, q1, q2, got, render(want)), Input: input, Sub: sub})
+			return false
+		}
+		return true
+	}
+	if step("1:first-query-on-cold-type", q1) && step("2:unfiltered-after-query", nil) && step("3:other-query", q2) && step("4:first-query-again", q1) && step("5:unfiltered-again", nil) {
+		c.Obs("cold_type_histories_clean", 1)
+	}
+	c.NonTrivial("cold", q1.String(), q2.String())
+}
+
 func init() {
 	register(&Prop{
 		ID: "C19",
@@ -546,6 +630,7 @@ func init() {
 						c.Violate(rt.Violation{Monitor: "query-string", Entry: "Build", Kind: "round-trip-differs", Ctx: qShape(q), Detail: fmt.Sprintf("query %s -> %q -> %v (%v)", q, s, dumpQuery(fq2), err), Sub: k})
 					}
 				}
+				c19Cold(c, 100+k, r)
 				c.NonTrivial(t.String(), qs[0].String(), qs[1].String())
 				if k == 0 {
 					c.Sample(map[string]any{"type": t.String(), "queries": []string{qs[0].String(), qs[1].String()}})
